@@ -412,6 +412,11 @@ impl Ctx {
 }
 
 /// Run `n` independent cases of `group` on the worker threads. `f(rng, index, report)`.
+/// Start of the process (set on first use): the Miri shards stop starting new cases after a time
+/// budget instead of being killed by the runner's watchdog on a loaded machine.
+pub static START: std::sync::OnceLock<std::time::Instant> = std::sync::OnceLock::new();
+pub const MIRI_BUDGET_S: u64 = 420;
+
 pub fn par_cases<F>(ctx: &Ctx, prop: &'static str, group: &str, n: u64, f: F) -> Report
 where
     F: Fn(&mut Rng, u64, &mut Report) + Sync,
@@ -432,6 +437,10 @@ where
                         break;
                     }
                     if !ctx.wants(group, i) {
+                        continue;
+                    }
+                    if ctx.miri && i >= 1 && START.get_or_init(std::time::Instant::now).elapsed().as_secs() > MIRI_BUDGET_S {
+                        rep.counters.inc("miri_cases_not_started_time_budget_used_up");
                         continue;
                     }
                     CURRENT_CASE.with(|c| *c.borrow_mut() = (tag.clone(), i));
